@@ -3,31 +3,19 @@ import Fv.Log.Pattern
 namespace Fv.Log.Pattern
 open Fv.Log
 
-/-- paddings for which `apply_padding` cannot panic whatever the content is -/
-def PaddingOk : Segment → Prop
-  | .lit _ => True
-  | .spec _ none _ => True
-  | .spec _ (some p) _ => -65535 ≤ p ∧ p ≤ 65535
+theorem padWidth_le (p : Int) : padWidth p ≤ 65535 := by unfold padWidth; omega
 
-instance (s : Segment) : Decidable (PaddingOk s) := by
-  cases s with
-  | lit t => exact isTrue trivial
-  | spec c p o =>
-    cases p with
-    | none => exact isTrue trivial
-    | some p => simp only [PaddingOk]; exact inferInstance
-
-theorem applyPadding_total (content : Text) (p : Int) (h : -65535 ≤ p ∧ p ≤ 65535) :
-    ∃ out, applyPadding content p = some out := by
+/-- the clamp discharges the `u16` precondition of the formatting primitive: `apply_padding` never panics -/
+theorem applyPadding_total (content : Text) (p : Int) : ∃ out, applyPadding content p = some out := by
   unfold applyPadding
-  have h1 : p ≠ -2147483648 := by omega
-  have h2 : ¬ 65535 < p.natAbs := by omega
-  simp only [h1, if_false, h2]
   split
   · exact ⟨_, rfl⟩
-  · split <;> exact ⟨_, rfl⟩
+  · unfold fmtPad
+    have : ¬ 65535 < padWidth p := by have := padWidth_le p; omega
+    simp only [this, if_false]
+    split <;> exact ⟨_, rfl⟩
 
-theorem renderSeg_total (ev : Event) (s : Segment) (h : PaddingOk s) : ∃ out, renderSeg ev s = some out := by
+theorem renderSeg_total (ev : Event) (s : Segment) : ∃ out, renderSeg ev s = some out := by
   cases s with
   | lit t => exact ⟨t, rfl⟩
   | spec c p o =>
@@ -36,52 +24,42 @@ theorem renderSeg_total (ev : Event) (s : Segment) (h : PaddingOk s) : ∃ out, 
     · exact ⟨_, rfl⟩
     · cases p with
       | none => exact ⟨_, rfl⟩
-      | some p => exact applyPadding_total _ p h
+      | some p => exact applyPadding_total _ p
 
-theorem renderSegs_total (ev : Event) (segs : List Segment) (h : ∀ s ∈ segs, PaddingOk s) :
-    ∃ out, renderSegs ev segs = some out := by
+theorem renderSegs_total (ev : Event) (segs : List Segment) : ∃ out, renderSegs ev segs = some out := by
   induction segs with
   | nil => exact ⟨[], rfl⟩
   | cons s rest ih =>
-    obtain ⟨a, ha⟩ := renderSeg_total ev s (h s (by simp))
-    obtain ⟨b, hb⟩ := ih (fun s hs => h s (by simp [hs]))
+    obtain ⟨a, ha⟩ := renderSeg_total ev s
+    obtain ⟨b, hb⟩ := ih
     exact ⟨a ++ b, by simp only [renderSegs, ha, hb]⟩
 
-/-- exact panic condition of `apply_padding` -/
-theorem applyPadding_eq_none_iff (content : Text) (p : Int) :
-    applyPadding content p = none ↔ p = -2147483648 ∨ (utf8Len content < p.natAbs ∧ 65535 < p.natAbs) := by
+/-- what `apply_padding` produces: the content itself when it is at least `min(|p|, 65535)` bytes long,
+otherwise the content with spaces on the left (`p > 0`) or on the right, `min(|p|, 65535)` characters in total -/
+theorem applyPadding_eq (content : Text) (p : Int) :
+    applyPadding content p = some
+      (if padWidth p ≤ utf8Len content then content
+       else if 0 < p then spaces (padWidth p - content.length) ++ content
+       else content ++ spaces (padWidth p - content.length)) := by
   unfold applyPadding
-  by_cases h1 : p = -2147483648
-  · simp [h1]
-  · by_cases h2 : p.natAbs ≤ utf8Len content
-    · simp only [h1, if_false, h2, if_true, false_or]
-      constructor
-      · intro h; cases h
-      · intro h; omega
-    · by_cases h3 : 65535 < p.natAbs
-      · simp only [h1, if_false, h2, h3, if_true, false_or, true_iff]
-        exact ⟨by omega, trivial⟩
-      · simp only [h1, if_false, h2, h3, false_or]
-        constructor
-        · intro h; split at h <;> cases h
-        · intro h; exact h.2.elim
+  split
+  · rfl
+  · unfold fmtPad
+    have : ¬ 65535 < padWidth p := by have := padWidth_le p; omega
+    simp only [this, if_false, decide_eq_true_eq]
+    split <;> rfl
 
 /-! ### the message is reproduced verbatim -/
 
 theorem infix_applyPadding {content out : Text} {p : Int} (h : applyPadding content p = some out) : content <:+: out := by
-  unfold applyPadding at h
-  by_cases h1 : p = -2147483648
-  · simp [h1] at h
-  · by_cases h2 : p.natAbs ≤ utf8Len content
-    · simp only [h1, if_false, h2, if_true, Option.some.injEq] at h
-      subst h; exact List.infix_refl _
-    · by_cases h3 : 65535 < p.natAbs
-      · simp [h1, h2, h3] at h
-      · by_cases h4 : 0 < p
-        · simp only [h1, if_false, h2, h3, h4, if_true, Option.some.injEq] at h
-          subst h; exact (List.suffix_append _ _).isInfix
-        · simp only [h1, if_false, h2, h3, h4, Option.some.injEq] at h
-          subst h; exact (List.prefix_append _ _).isInfix
+  rw [applyPadding_eq] at h
+  simp only [Option.some.injEq] at h
+  subst h
+  split
+  · exact List.infix_refl _
+  · split
+    · exact (List.suffix_append _ _).isInfix
+    · exact (List.prefix_append _ _).isInfix
 
 theorem renderSegs_mem {ev : Event} {segs : List Segment} {out : Text} (h : renderSegs ev segs = some out)
     {s : Segment} (hs : s ∈ segs) : ∃ a, renderSeg ev s = some a ∧ a <:+: out := by
@@ -128,47 +106,6 @@ theorem message_verbatim_segs {ev : Event} {segs : List Segment} {out : Text} (h
   | some p => exact (infix_applyPadding ha).trans hin
 
 
-
-/-! ### exact panic condition of a rendering -/
-
-theorem renderSeg_eq_none_iff (ev : Event) (s : Segment) :
-    renderSeg ev s = none ↔ ∃ c p o, s = .spec c (some p) o ∧ c ≠ 'n' ∧ applyPadding (specContent c o ev) p = none := by
-  cases s with
-  | lit t => simp [renderSeg]
-  | spec c p o =>
-    simp only [renderSeg]
-    by_cases hn : c = 'n'
-    · subst hn
-      simp only [if_true, reduceCtorEq, false_iff]
-      rintro ⟨c', p', o', heq, hne, _⟩
-      cases heq; exact hne rfl
-    · cases p with
-      | none => simp [hn]
-      | some p =>
-        simp only [hn, if_false]
-        constructor
-        · intro h; exact ⟨c, p, o, rfl, hn, h⟩
-        · rintro ⟨c', p', o', heq, _, h⟩
-          cases heq; exact h
-
-theorem renderSegs_eq_none_iff (ev : Event) (segs : List Segment) :
-    renderSegs ev segs = none ↔ ∃ s ∈ segs, renderSeg ev s = none := by
-  induction segs with
-  | nil => simp [renderSegs]
-  | cons s rest ih =>
-    simp only [renderSegs, List.mem_cons, exists_eq_or_imp]
-    cases h0 : renderSeg ev s with
-    | none => simp
-    | some a =>
-      cases h1 : renderSegs ev rest with
-      | none => simp only [true_iff]; exact Or.inr (ih.mp h1)
-      | some b =>
-        constructor
-        · intro h; cases h
-        · rintro (h | h)
-          · cases h
-          · have := ih.mpr h
-            rw [h1] at this; cases this
 
 /-! ### paddings produced by the parser fit an `i32` -/
 
